@@ -17,8 +17,7 @@ def run(ctx):
                 "distinct by canonical input")
     tree_api.campaign(ctx)
     args_api.campaign(ctx)
-    hits = {v["finding"] for v in ctx.violations if v["finding"]}
-    ctx.extra["known_witnesses_detected"] = sorted(hits)
+    ctx.extra["corpus_witnesses"] = [s["name"] for s in args_api.corpus()]   # F70, F71, F72 (fixed): must pass
 
 
 def replay(ctx, obj):
